@@ -178,7 +178,7 @@ func solveAll(results []*OblResult, timeoutS int, workers int, order []int) {
 				if r.Obl.ExpectSat {
 					r.Res = Solve(r.Script, 3, []int{0, 1})
 				} else {
-					r.Res = Solve2(r.Script, r.LinScript, timeoutS, order)
+					r.Res = solveStaged(r, timeoutS, order)
 					if r.Res.Linearized {
 						r.Script = r.LinScript
 					}
@@ -295,6 +295,65 @@ func solveAll(results []*OblResult, timeoutS int, workers int, order []int) {
 	}
 	close(ch)
 	wg.Wait()
+}
+
+// solveStaged: one second on the exact query (and on its linearisation); then, if the goal is a conjunction or a
+// bit-vector equation, conjunct by conjunct; then the race of all solvers on the exact and linearised queries.
+func solveStaged(r *OblResult, timeoutS int, order []int) *SolveResult {
+	first := Solve2first(r.Script, r.LinScript, order)
+	if first.Status == "unsat" || first.Status == "sat" {
+		return first
+	}
+	// goal conjunct by conjunct (bit by bit for bit-vector equations), each a smaller search
+	r.Ex.buildMu.Lock()
+	var conj, conjLin []string
+	if cj := r.Ex.goalConjuncts(r.Obl.Goal); len(cj) > 1 && len(cj) <= 40 {
+		for _, g := range cj {
+			o2 := *r.Obl
+			o2.Goal = g
+			conj = append(conj, r.Ex.buildQuery(&o2, nil))
+			lin := ""
+			if r.LinScript != "" {
+				lin = r.Ex.buildQueryOpt(&o2, nil, true)
+			}
+			conjLin = append(conjLin, lin)
+		}
+	}
+	r.Ex.buildMu.Unlock()
+	if len(conj) > 1 {
+		per := 5
+		if timeoutS < per {
+			per = timeoutS
+		}
+		all := true
+		tot, maxPart := first.Time, 0.0
+		tried := append([]string{}, first.Tried...)
+		for ci, sc := range conj {
+			pr := Solve2race(sc, conjLin[ci], per, order)
+			tot += pr.Time
+			if pr.Time > maxPart {
+				maxPart = pr.Time
+			}
+			if pr.Status == "sat" && !pr.Linearized {
+				// a conjunct of the goal is refutable under all the assumptions: so is the goal
+				return &SolveResult{Status: "sat", Solver: pr.Solver, Time: tot, Tried: append(tried, "conj:"+strings.Join(pr.Tried, ",")), Output: pr.Output}
+			}
+			if pr.Status != "unsat" {
+				all = false
+				tried = append(tried, "conj:"+strings.Join(pr.Tried, ","))
+				break
+			}
+		}
+		first.Tried = tried
+		first.Time = tot
+		if all {
+			return &SolveResult{Status: "unsat", Solver: fmt.Sprintf("conj(%d)", len(conj)), Time: tot, Tried: tried, MaxPart: maxPart}
+		}
+	}
+	rest := Solve2race(r.Script, r.LinScript, timeoutS, order)
+	rest.Tried = append(first.Tried, rest.Tried...)
+	rest.Time += first.Time
+	return rest
 }
 
 func main() {
